@@ -178,6 +178,8 @@ func c12HostValues() []interface{} {
 		S{}, &S{}, S{A: &one, D: 1}, S{D: S{}}, T{}, &T{}, cyc, deep, *deep, struct{ X interface{} }{nilPtr}, struct{ x int }{1},
 		map[string][]map[string][]int{"x": {{"y": {1}}}}, map[string]interface{}{"x": [][]interface{}{{1}, {"a"}}}, []interface{}{1}, map[int]interface{}{1: 1},
 		reflect.ValueOf(1), map[string]interface{}{"x": reflect.ValueOf(1)}, fmt.Errorf("e"), map[string]interface{}{"x": fmt.Errorf("e")},
+		// Go structs that are NOT environments: time.Time (a yae primitive), its pointer, durations, big structs of the standard library
+		time.Time{}, time.Unix(1641092645, 0), &time.Time{}, (*time.Time)(nil), time.Second, reflect.TypeOf(1), struct{ T time.Time }{}, &struct{ T *time.Time }{}, [1]time.Time{}, []time.Time{{}},
 	}
 	return vals
 }
